@@ -164,8 +164,10 @@ func (c *tcpClient) Emit(disc uint8, payload []byte) uint64 {
 	env := envelope{id: id, ts: ts, disc: disc, payload: payload}
 	select {
 	case c.queue <- env:
+		vtrace("emit.q", id, 0, 0)
 	default:
 		c.drops.record(id, ts)
+		vtrace("emit.d", id, 0, 0)
 	}
 	return id
 }
@@ -192,8 +194,10 @@ func (c *tcpClient) EmitLazy(disc uint8, builder func() []byte) uint64 {
 	env := envelope{id: id, ts: ts, disc: disc, builder: builder}
 	select {
 	case c.queue <- env:
+		vtrace("emit.q", id, 0, 0)
 	default:
 		c.drops.record(id, ts)
+		vtrace("emit.d", id, 0, 0)
 	}
 	return id
 }
@@ -256,8 +260,10 @@ func (c *tcpClient) emitFollowupAtomic(disc uint8, parentID uint64, payload []by
 	env := envelope{id: id, ts: ts, disc: disc, payload: payload, builder: builder}
 	select {
 	case c.queue <- env:
+		vtrace("fup.q", id, parentID, 0)
 	default:
 		c.drops.record(id, ts)
+		vtrace("fup.d", id, parentID, 0)
 	}
 	return id
 }
@@ -369,6 +375,7 @@ func (c *tcpClient) connectLoop() {
 		c.seq.Lock()
 		c.drops.reset()
 		c.drainQueueLocked()
+		vtrace("conn.reset", 0, 0, 0)
 		c.seq.Unlock()
 
 		log.Printf("telemetry: connection lost: %v (reconnect in %s)", err, backoff)
